@@ -121,7 +121,7 @@ def main(p):
                 except Exception as e:  # noqa: BLE001
                     bad.append(f"raised {type(e).__name__}: {e}")
     elif p["kind"] == "reffreq":
-        from sigpyproc.params import DM_CONSTANT_LK
+        DM_CONSTANT_LK = 4.148808e3      # the documented constant
         nch, rf = p["nchans"], p["ref_freq"]
         fch1, foff = float(p.get("fch1", 1500.0)), float(p.get("foff", -1.0))
         cases = [(fch1, foff)] if 100 < fch1 < 1e5 and 1e-3 < abs(foff) < 50 and fch1 + foff * nch > 50 else []
@@ -145,7 +145,8 @@ def main(p):
             if not np.allclose(got, exact, rtol=2e-3, atol=1e-6):
                 bad.append(f"get_dmdelays(ref_freq={rf!r}) on fch1={fch1}, foff={foff}, nchans={nch} = {got.tolist()} but the delays relative to {want} MHz are {exact.tolist()}")
     elif p["kind"] == "delays":
-        from sigpyproc.params import DM_CONSTANT_LK, compute_dmdelays
+        from sigpyproc.params import compute_dmdelays
+        DM_CONSTANT_LK = 4.148808e3      # the documented constant
         f = np.array(p["freqs"], dtype=np.float64)
         ref, dm, ts = p["ref"], p["dm"], p["tsamp"]
         d = np.atleast_1d(compute_dmdelays(f, dm, ts, ref)).astype(np.int64)
